@@ -63,24 +63,6 @@ Check C09_dictionary_race_refuted :
                 a_text a = tx 1 /\ a_text b = tx 1 /\ dv_user (a_dict a) = [] /\ dv_user (a_dict b) = [5].
 Print Assumptions C09_dictionary_race_refuted.
 
-(* F17f (new with the version check, which sits after the dictionary refresh): an outdated didChange of a
-   source file that arrives after the user dictionary changed resets dict / ident_dict / linter and returns
-   early; the newest text is re-published with its identifiers reported as misspelt *)
-Theorem C09_stale_update_refuted :
-  exists y, run stale_update_schedule (init stale_update_history (world0 0)) = Some y /\ quiescent y /\
-    exists a b, lastword (y_world y) uA = PDiag a /\ expected (y_world y) uA = PDiag b /\
-                a_text a = code_text 2 /\ a_text b = code_text 2 /\
-                dv_user (a_dict a) = [5] /\ dv_user (a_dict b) = [5] /\
-                dv_ident (a_dict a) = 0 /\ dv_ident (a_dict b) = 7.
-Proof. exact stale_update_drops_identifiers. Qed.
-Check C09_stale_update_refuted :
-  exists y, run stale_update_schedule (init stale_update_history (world0 0)) = Some y /\ quiescent y /\
-    exists a b, lastword (y_world y) uA = PDiag a /\ expected (y_world y) uA = PDiag b /\
-                a_text a = code_text 2 /\ a_text b = code_text 2 /\
-                dv_user (a_dict a) = [5] /\ dv_user (a_dict b) = [5] /\
-                dv_ident (a_dict a) = 0 /\ dv_ident (a_dict b) = 7.
-Print Assumptions C09_stale_update_refuted.
-
 (* F17b - HarperAddToUserDict / HarperAddToFileDict / didChangeConfiguration re-read the FILE: with an
    unsaved buffer (text 1) the last word is that of the text on disk (text 9), one handler at a time *)
 Theorem C09_disk_refuted :
@@ -206,6 +188,40 @@ Example C09_versioned_nonvacuous :
     lastword (y_world y) (UFile 0 1) = PDiag (mkargs (mktext 4 0) LPlain (mkdict [] [] 0) (mkdict [] [] 0) 0 0 0 []) /\
     length (s_log (y_world y)) = 6.
 Proof. exact ver_schedule_runs. Qed.
+
+(* F17f is repaired (1f0bfb7): the version check is the first thing done under the doc_state lock - an
+   outdated update (version lower than the installed one) is a NO-OP on the whole world: doc_state, its
+   dictionaries, linter and identifiers, the log *)
+Theorem C09_outdated_update_noop :
+  forall l w t e,
+  s_lock w = false -> l_text l = Some t -> lookup (l_url l) (s_docs w) = Some e -> stale (l_ver l) (e_ver e) = true ->
+  exec IUpdate l w = Some ([], l, w).
+Proof. exact outdated_update_noop. Qed.
+Check C09_outdated_update_noop :
+  forall l w t e,
+  s_lock w = false -> l_text l = Some t -> lookup (l_url l) (s_docs w) = Some e -> stale (l_ver l) (e_ver e) = true ->
+  exec IUpdate l w = Some ([], l, w).
+Print Assumptions C09_outdated_update_noop.
+
+(* the old witness of F17f (outdated didChange of a source file arriving after the user dictionary changed):
+   the identifiers stay merged, document and linter dictionaries agree *)
+Example C09_stale_update_fixed_example :
+  exists y, run stale_update_schedule (init stale_update_history (world0 0)) = Some y /\ quiescent y /\
+    exists a b, lastword (y_world y) uA = PDiag a /\ expected (y_world y) uA = PDiag b /\
+                a_text a = code_text 2 /\ a_text b = code_text 2 /\
+                dv_ident (a_dict a) = 7 /\ dv_ident (a_dict b) = 7 /\ a_ddict a = a_dict a.
+Proof. exact stale_update_keeps_identifiers. Qed.
+
+(* HISTORY, labelled: with the critical section as it was BEFORE 1f0bfb7 (iupdate_before_1f0bfb7: version check
+   after the dictionary refresh) the same state lost the identifiers (the former C09_stale_update_refuted);
+   the current code leaves the world unchanged there *)
+Example C09_stale_update_old_refuted :
+  exists y h, run stale_update_prefix (init stale_update_history (world0 0)) = Some y /\
+    find_h 1 (y_flight y) = Some h /\ h_prog h = [IUpdate; IPublish] /\
+    (exists w' a, iupdate_before_1f0bfb7 (h_loc h) (y_world y) = Some w' /\ pubval w' uA = PDiag a /\ dv_ident (a_dict a) = 0) /\
+    exec IUpdate (h_loc h) (y_world y) = Some ([], h_loc h, y_world y) /\
+    (exists a, pubval (y_world y) uA = PDiag a /\ dv_ident (a_dict a) = 7).
+Proof. exact stale_update_old_dropped_identifiers. Qed.
 
 (* the OLD witness of F17a (two didChange handled in the opposite order), at both granularities: it now ends well *)
 Example C09_reorder_fixed_example :
